@@ -9,9 +9,10 @@ from pbt.core import call
 
 PROP = "C09"
 TECHNIQUE = "bounded exhaustive enumeration of multisets + Hypothesis-sampled large tied samples vs. exact counting oracle"
-RULE = ("exhaustive: every multiset of size 1..7 over a 6-letter alphabet x {int,float} letters x {list,ndarray} "
+RULE = ("exhaustive: every multiset of size 1..7 over a 6-letter alphabet x {int,float} letters x {list, ndarray; integers also as uint8 / uint64 / int16 arrays} "
         "x 13 query values (each letter, between letters, below, above); sampled: 10^2..10^4-element samples over "
-        "small alphabets. One case = (sample, dtype, container) with all its queries. Non-trivial = sample has a "
+        "small alphabets as list / tuple / ndarray (also read-only, big-endian, strided, unsigned and narrow integer dtypes), as drawn / "
+        "pre-sorted / reverse-sorted, queried with Python numbers, numpy scalars or 0-d arrays; the caller's sample must be left unchanged. One case = (sample, dtype, container) with all its queries. Non-trivial = sample has a "
         "repeated value and is queried at that value; distinct = canonical JSON of the case.")
 ASSUMPTIONS = ["sample is non-empty and finite (the property's domain)",
                "expected value is float(Fraction(count, n)); numpy's k/float(n) is correctly rounded, so equality is exact"]
